@@ -20,6 +20,7 @@
 
   Property theorems only; the proofs are in `Proofs/EvalLaws.lean` and `Proofs/EvalBasic.lean`.
 -/
+import LispModel.Proofs.EnvAlgLaws
 import LispModel.Eval
 import LispModel.Proofs.EvalBasic
 import LispModel.Proofs.EvalLaws
@@ -1029,5 +1030,51 @@ theorem operator_effects_first :
 theorem unbound_operator_example :
     (let r := runTop (Ls [Sy "nope", Ls [Sy "trace!", Nm 1]]); failed r && traceEq r []) = true :=
   Proofs.SeedLaws.C01.unbound_operator_example
+
+
+/-! ## the environment object itself (env/env.go as an abstract data type; model LispModel/EnvAlg.lean, engine envalg)
+
+The evaluator model keeps scopes in its own store; these laws are about the Go package the evaluator (and every embedder)
+calls — `Set / Get / Find / Remove / Update` and the parameter binder `_newSubordinateEnvWithBinds` — tied to the real
+package through its exported API by engine `envalg`. -/
+
+open LispModel.EnvAlg in
+/-- the innermost binding wins: after `Set` in a scope, `Get` from that scope answers it whatever the ancestors hold -/
+theorem env_innermost_binding_wins {st : Store} {child : Nat} (h : child < st.length) (k : String) (v : V) :
+    get (set st child k v).1 child k = .ok v ∧ find (set st child k v).1 child k = .ok (some child) :=
+  innermost_wins h k v
+
+open LispModel.EnvAlg in
+/-- a binding made in a scope is invisible from every older scope (parents, siblings' parents, the globals) -/
+theorem env_set_does_not_touch_older_scopes {st : Store} (hwf : WF st) {child j : Nat} (hj : j < child)
+    (k : String) (v : V) (k' : String) :
+    get (set st child k v).1 j k' = get st j k' ∧ find (set st child k v).1 j k' = find st j k' :=
+  set_child_does_not_touch_parent hwf hj k v k'
+
+open LispModel.EnvAlg in
+/-- without `&` the binder succeeds exactly when there are as many arguments as parameters -/
+theorem binder_positional_arity_exact (binds exprs : List V) (hp : ∀ b ∈ binds, V.plain b = true) :
+    (∃ d, bindSeq binds exprs = .ok d) ↔ binds.length = exprs.length := bind_positional_ok_iff binds exprs hp
+
+open LispModel.EnvAlg in
+/-- with `& r` the binder needs at least the positional arguments and binds `r` to the LIST of the others -/
+theorem binder_rest_collects (pre : List V) (r : String) (tail exprs : List V) (hp : ∀ b ∈ pre, V.plain b = true) :
+    bindSeq (pre ++ .sym "&" :: .sym r :: tail) exprs =
+      if exprs.length < pre.length then .err (.tooFew (pre ++ V.sym "&" :: .sym r :: tail).length exprs.length)
+      else .ok (dset r (.list (exprs.drop pre.length)) (insertAll [] (List.zip (pre.map V.symName) exprs))) :=
+  EnvAlg.bind_rest pre r tail exprs hp
+
+open LispModel.EnvAlg in
+/-- a call's scope is fresh: new id, child of the closure's scope, no existing scope changed -/
+theorem binder_scope_is_fresh {st st' : Store} {outer id : Nat} {bm em : V}
+    (h : bind st outer bm em = (st', .ok id)) :
+    id = st.length ∧ (∃ d, bindData bm em = .ok d ∧ st' = st ++ [⟨d, some outer⟩]) ∧
+    st'.length = st.length + 1 ∧ (∀ j, j < st.length → st'[j]? = st[j]?) ∧
+    (∃ sc, st'[id]? = some sc ∧ sc.outer = some outer) := bind_fresh_scope h
+
+open LispModel.EnvAlg in
+/-- the binder never panics, whatever is passed as parameter list and argument list -/
+theorem binder_never_panics (st : Store) (outer : Nat) (bm em : V) (s : String) :
+    (bind st outer bm em).2 ≠ .panic s := bind_no_panic st outer bm em s
 
 end LispModel.Props.C01
